@@ -31,6 +31,12 @@ CHECKS = {
              'product of both sides; beyond the bound Hypothesis samples generated models with up to 6 ports. Accessor '
              'types are read back from the generated header.',
         note=TRUST_PY, design='C03'),
+    'C04': dict(
+        technique='model-based generation of claim/release/other/out-event histories (Hypothesis, sequences as data, delta-debugged) run against the compiled multi-client shell with a reference claim model as oracle',
+        text='Per generated multi-client model the shell is compiled once and hundreds of histories over 1-4 clients with '
+             'honest and arbitrary arbiter replies are executed; every out-event must reach exactly the client the '
+             'reference model says holds the claim and every in-event must pass the dispatcher once with reply returned.',
+        note=TRUST_CXX, design='C04'),
     'C05': dict(
         technique=PBT + 'an independent reference model of the file contents (round trip model -> JSON -> parser -> view)',
         text='Generated-input search: random well-formed Dezyne JSON ASTs are parsed by the code under test and the '
